@@ -36,6 +36,10 @@ def gen(rng, P):
       ops.append(["sleep", rng.randint(1, 3)])
   if rng.random() < P["stop"]:
     nm = rng.choice(names)
+    if rng.random() < 0.5:
+      # a handler that arms one more timed source (under a signal name of its own) while stop() may already be under way
+      [a for a in aos if a["name"] == nm][0]["handler_ops"]["B"] = [["tpost", nm, rng.choice(["fifo", "lifo"]), "C", rng.choice([1, 2]), rng.choice([0, 2, 3]), rng.random() < 0.5, 90]]
+      ops.append(["post", nm, "fifo", "B"])
     if rng.random() < 0.3:
       [a for a in aos if a["name"] == nm][0]["handler_ops"]["C"] = [["stop", nm]]
       ops.append(["post", nm, "fifo", "C"])
